@@ -1293,20 +1293,20 @@ theorem decrease_ignores_expiry_on_removal :
 
 
 /-! ### Non-vacuity of the added theorems (on the example token of `Ex`) -/
+theorem ex_s1_inv : C01.Inv Ex.s1 := ⟨by decide, by decide⟩
+
 namespace Ex2
 open Ex
-
-theorem s1_inv : C01.Inv s1 := ⟨by decide, by decide⟩
 
 /-- `draw_ok_iff`: with 50 granted until height 20, bob's `TransferFrom 30` at height 10 is ready, hence succeeds
 — and at height 20 (expired) or for 51 it is not. -/
 example : ∃ r, execute s1 blk "bob" (.transferFrom alice carol 30) = .ok r :=
-  (draw_ok_iff s1_inv (msg := .transferFrom alice carol 30) rfl).mpr
+  (draw_ok_iff ex_s1_inv (msg := .transferFrom alice carol 30) rfl).mpr
     ⟨⟨rfl, by decide, ⟨_, rfl, by decide, by decide⟩, ⟨_, rfl, by decide, by decide⟩⟩,
      by intro r hr; cases hr; rfl⟩
 example : ¬ ∃ r, execute s1 late "bob" (.burnFrom alice 30) = .ok r := by
   intro h
-  obtain ⟨⟨_, _, ⟨al, e1, e2, _⟩, _⟩, _⟩ := (draw_ok_iff s1_inv (msg := .burnFrom alice 30) rfl).mp h
+  obtain ⟨⟨_, _, ⟨al, e1, e2, _⟩, _⟩, _⟩ := (draw_ok_iff ex_s1_inv (msg := .burnFrom alice 30) rfl).mp h
   cases e1; revert e2; decide
 example : DrawReady s1 blk "bob" alice 50 ∧ ¬ DrawReady s1 blk "bob" alice 51 := by
   refine ⟨⟨rfl, by decide, ⟨_, rfl, by decide, by decide⟩, ⟨_, rfl, by decide, by decide⟩⟩, ?_⟩
